@@ -5,17 +5,90 @@ import StirVerif.C01.Model
 
 namespace StirVerif.C01
 
+/-! ## helper lemmas: reduce `shr1`, `tdiv 2` and `tmod (2*m)` to linear arithmetic -/
+
+/-- `>> 1` is Euclidean/floor division by 2 (the form `omega` understands) -/
+theorem shr1_eq (x : Int) : shr1 x = x / 2 := by
+  unfold shr1
+  exact Int.fdiv_eq_ediv_of_nonneg x (by omega)
+
+theorem tdiv_two_m (m : Int) (hm : 0 < m) : (2 * m).tdiv 2 = m := by
+  rw [Int.tdiv_eq_ediv_of_nonneg (by omega)]; omega
+
+theorem tdiv_three_m (m : Int) (hm : 0 < m) : (3 * (2 * m)).tdiv 2 = 3 * m := by
+  rw [Int.tdiv_eq_ediv_of_nonneg (by omega)]; omega
+
+/-- C `%` on an argument in `[0, 3n)`: the three possible reductions -/
+theorem tmod_cases (x n : Int) (h0 : 0 ≤ x) (h3 : x < 3 * n) :
+    (x < n ∧ x.tmod n = x) ∨ (n ≤ x ∧ x < 2 * n ∧ x.tmod n = x - n) ∨
+    (2 * n ≤ x ∧ x.tmod n = x - 2 * n) := by
+  rw [Int.tmod_eq_emod_of_nonneg h0]
+  by_cases h1 : x < n
+  · left; exact ⟨h1, Int.emod_eq_of_lt h0 h1⟩
+  · by_cases h2 : x < 2 * n
+    · right; left
+      refine ⟨by omega, h2, ?_⟩
+      rw [← Int.sub_emod_right]
+      exact Int.emod_eq_of_lt (by omega) (by omega)
+    · right; right
+      refine ⟨by omega, ?_⟩
+      rw [← Int.sub_mul_emod_self_left x n 2, Int.mul_comm n 2]
+      exact Int.emod_eq_of_lt (by omega) (by omega)
+
+/-- converse form of `tmod_cases`, to discharge goals `x.tmod n = r` by `omega` -/
+theorem tmod_eq_of (x n r : Int) (h0 : 0 ≤ x) (h3 : x < 3 * n)
+    (h : (x < n ∧ x = r) ∨ (n ≤ x ∧ x < 2 * n ∧ x - n = r) ∨ (2 * n ≤ x ∧ x - 2 * n = r)) :
+    x.tmod n = r := by
+  have := tmod_cases x n h0 h3
+  omega
+
+/-- `viewTangToDet` at `N = 2m`, with `shr1`/`tdiv` rewritten to `omega`-friendly terms -/
+theorem viewTangToDet_eq (m v tp : Int) (hm : 0 < m) :
+    viewTangToDet (2 * m) v tp =
+      ((v + tp / 2 + 2 * m).tmod (2 * m), (v - (tp + 1) / 2 + m).tmod (2 * m)) := by
+  simp only [viewTangToDet, shr1_eq, tdiv_two_m m hm]
+
+/-- `detToViewTang` at `N = 2m` with the two `tmod` values named -/
+theorem detToViewTang_eq (m d1 d2 tang view : Int) (hm : 0 < m)
+    (htang : (d1 - d2 + 3 * m).tmod (2 * m) = tang)
+    (hview : (d1 - tang / 2 + 2 * m).tmod (2 * m) = view) :
+    detToViewTang (2 * m) d1 d2 =
+      if view < m then
+        if tang ≥ m then (view, 2 * m - tang, false) else (view, tang, true)
+      else
+        if tang ≥ m then (view - m, tang - 2 * m, true) else (view - m, -tang, false) := by
+  simp only [detToViewTang, shr1_eq, tdiv_two_m m hm, tdiv_three_m m hm, htang, hview]
+
+/-! ## the four properties -/
+
 /-- bin → detectors → bin is the identity (and reports "not swapped") -/
 theorem vt_det_roundtrip (m v tp : Int) (hm : 0 < m) (hv : 0 ≤ v ∧ v < m) (ht : -m < tp ∧ tp < m) :
     detToViewTang (2 * m) (viewTangToDet (2 * m) v tp).1 (viewTangToDet (2 * m) v tp).2 = (v, tp, true) := by
-  sorry
+  rw [viewTangToDet_eq m v tp hm]
+  simp only []
+  have ha := tmod_cases (v + tp / 2 + 2 * m) (2 * m) (by omega) (by omega)
+  have hb := tmod_cases (v - (tp + 1) / 2 + m) (2 * m) (by omega) (by omega)
+  generalize (v + tp / 2 + 2 * m).tmod (2 * m) = a at *
+  generalize (v - (tp + 1) / 2 + m).tmod (2 * m) = b at *
+  have hc := tmod_cases (a - b + 3 * m) (2 * m) (by omega) (by omega)
+  generalize htang : (a - b + 3 * m).tmod (2 * m) = tang at *
+  have hd := tmod_cases (a - tang / 2 + 2 * m) (2 * m) (by omega) (by omega)
+  generalize hview : (a - tang / 2 + 2 * m).tmod (2 * m) = view at *
+  rw [detToViewTang_eq m a b tang view hm htang hview]
+  split <;> split <;> simp only [Prod.mk.injEq, Bool.false_eq_true, and_false, and_true] <;> omega
 
 /-- the detectors of a bin are two different detectors of the ring -/
 theorem viewTangToDet_range (m v tp : Int) (hm : 0 < m) (hv : 0 ≤ v ∧ v < m) (ht : -m < tp ∧ tp < m) :
     0 ≤ (viewTangToDet (2 * m) v tp).1 ∧ (viewTangToDet (2 * m) v tp).1 < 2 * m ∧
     0 ≤ (viewTangToDet (2 * m) v tp).2 ∧ (viewTangToDet (2 * m) v tp).2 < 2 * m ∧
     (viewTangToDet (2 * m) v tp).1 ≠ (viewTangToDet (2 * m) v tp).2 := by
-  sorry
+  rw [viewTangToDet_eq m v tp hm]
+  simp only []
+  have ha := tmod_cases (v + tp / 2 + 2 * m) (2 * m) (by omega) (by omega)
+  have hb := tmod_cases (v - (tp + 1) / 2 + m) (2 * m) (by omega) (by omega)
+  generalize (v + tp / 2 + 2 * m).tmod (2 * m) = a at *
+  generalize (v - (tp + 1) / 2 + m).tmod (2 * m) = b at *
+  omega
 
 /-- detectors → bin → detectors gives the pair back, exchanged exactly when the flag says so;
     view and tangential position are in range -/
@@ -25,13 +98,41 @@ theorem det_vt_roundtrip (m d1 d2 : Int) (hm : 0 < m) (h1 : 0 ≤ d1 ∧ d1 < 2 
     -m < (detToViewTang (2 * m) d1 d2).2.1 ∧ (detToViewTang (2 * m) d1 d2).2.1 < m ∧
     viewTangToDet (2 * m) (detToViewTang (2 * m) d1 d2).1 (detToViewTang (2 * m) d1 d2).2.1 =
       (if (detToViewTang (2 * m) d1 d2).2.2 then (d1, d2) else (d2, d1)) := by
-  sorry
+  have hc := tmod_cases (d1 - d2 + 3 * m) (2 * m) (by omega) (by omega)
+  generalize htang : (d1 - d2 + 3 * m).tmod (2 * m) = tang at *
+  have hd := tmod_cases (d1 - tang / 2 + 2 * m) (2 * m) (by omega) (by omega)
+  generalize hview : (d1 - tang / 2 + 2 * m).tmod (2 * m) = view at *
+  rw [detToViewTang_eq m d1 d2 tang view hm htang hview]
+  split <;> split <;> simp only [Bool.false_eq_true, if_false, if_true] <;>
+    rw [viewTangToDet_eq _ _ _ hm] <;>
+    (refine ⟨by omega, by omega, by omega, by omega, ?_⟩) <;>
+    simp only [Prod.mk.injEq]
+  all_goals
+    clear htang hview
+    exact ⟨tmod_eq_of _ _ _ (by omega) (by omega) (by omega),
+      tmod_eq_of _ _ _ (by omega) (by omega) (by omega)⟩
 
 /-- exchanging the two detectors gives the same view and tangential position and the opposite flag -/
 theorem swap_exchanges (m d1 d2 : Int) (hm : 0 < m) (h1 : 0 ≤ d1 ∧ d1 < 2 * m) (h2 : 0 ≤ d2 ∧ d2 < 2 * m)
     (hne : d1 ≠ d2) :
     detToViewTang (2 * m) d2 d1 =
       ((detToViewTang (2 * m) d1 d2).1, (detToViewTang (2 * m) d1 d2).2.1, !(detToViewTang (2 * m) d1 d2).2.2) := by
-  sorry
+  have hc := tmod_cases (d1 - d2 + 3 * m) (2 * m) (by omega) (by omega)
+  generalize htang : (d1 - d2 + 3 * m).tmod (2 * m) = tang at *
+  have hd := tmod_cases (d1 - tang / 2 + 2 * m) (2 * m) (by omega) (by omega)
+  generalize hview : (d1 - tang / 2 + 2 * m).tmod (2 * m) = view at *
+  have hc' := tmod_cases (d2 - d1 + 3 * m) (2 * m) (by omega) (by omega)
+  generalize htang' : (d2 - d1 + 3 * m).tmod (2 * m) = tang' at *
+  have hd' := tmod_cases (d2 - tang' / 2 + 2 * m) (2 * m) (by omega) (by omega)
+  generalize hview' : (d2 - tang' / 2 + 2 * m).tmod (2 * m) = view' at *
+  rw [detToViewTang_eq m d1 d2 tang view hm htang hview,
+    detToViewTang_eq m d2 d1 tang' view' hm htang' hview']
+  clear htang hview htang' hview'
+  rcases hc with hc | hc | hc <;> rcases hc' with hc' | hc' | hc' <;> (try (exfalso; omega)) <;>
+  rcases hd with hd | hd | hd <;> (try (exfalso; omega)) <;>
+  rcases hd' with hd' | hd' | hd' <;> (try (exfalso; omega)) <;>
+  split <;> split <;> split <;> split <;>
+    simp only [Prod.mk.injEq, Bool.false_eq_true, Bool.not_false, Bool.not_true, and_false, and_true,
+      Bool.true_eq_false] <;> omega
 
 end StirVerif.C01
